@@ -6,7 +6,7 @@ try:
     out = json.load(open("/verif/seeded/RESULTS.json"))
 except Exception:
     pass
-for f in sorted(glob.glob("/tmp/regr/results-*.json")):
+for f in sorted(glob.glob(__import__("os").environ.get("REGR_BASE", "/tmp/regr") + "/results-*.json")):
     out.update(json.load(open(f)))
 json.dump(dict(sorted(out.items())), open("/verif/seeded/RESULTS.json", "w"), indent=1)
 missed = [k for k, v in out.items() if v.get("exit") != 1]
